@@ -394,3 +394,63 @@ def ob_variant_names(r, tier, seed):
 _c19_obl5 = obligations
 def obligations():
     return _c19_obl5() + [Ob('O19.7-variant-struct-names', 'enum variants get distinct Go struct names', ob_variant_names, ('quick', 'thorough'), 5, {})]
+
+# ----------------------------------------------------------------------------- O19.8 the Go name compile_fn gives a function: only the entry point is renamed
+def ob_fn_names(r, tier, seed, maxlen=6, alphabet='mainod:0'):
+    from mirsym.engine import Agg, PyVec, Ref, Cell_, mkstr, mkbox
+    W = e2.fresh_world(CRATES); tt = W.tt
+    AFN = tt.find_adt(['anf', 'Fn'], 'compiler'); AE = tt.find_adt(['anf', 'AExpr'], 'compiler'); CE = tt.find_adt(['anf', 'CExpr'], 'compiler'); IE = tt.find_adt(['anf', 'ImmExpr'], 'compiler')
+    TY = tt.find_adt(['tast', 'Ty'], 'compiler'); PR = tt.find_adt(['common', 'Prim'], 'compiler'); GFN = tt.find_adt(['goast', 'Fn'], 'compiler'); GOENV = tt.find_adt(['go', 'compile', 'GlobalGoEnv'], 'compiler')
+    r.bounds = 'go::compile::compile_fn on a function `fn <name>() -> unit { () }` for every name of 1..%d characters over the alphabet %r (symbolic characters)' % (maxlen, alphabet)
+    r.assumptions = ['oracle: the Go function is called main0 exactly when the source function is the entry point (`main`, or `<Package>::main`); every other function keeps go_ident(name), so that no ordinary function can share the entry point\'s Go name (the user-spelled `main0` itself is the known finding of O19.2)']
+    def body():
+        unit_ty = Agg(TY.key, TY.vindex('TUnit'), [])
+        imm = Agg(IE.key, IE.vindex('ImmPrim'), [Agg(PR.key, PR.vindex('Unit'), [ms.UNIT]), unit_ty])
+        return Agg(AE.key, AE.vindex('ACExpr'), [Agg(CE.key, CE.vindex('CImm'), [imm])]), unit_ty
+    main0 = [ord(c) for c in 'main0']
+    for n in range(1, maxlen + 1):
+        cs = [z3.Int('n%d_%d' % (n, i)) for i in range(n)]; ass = [char_domain(c, alphabet) for c in cs]
+        def entry(ex):
+            b, unit_ty = body()
+            fn = Agg(AFN.key, 0, [{'name': ms.Str(list(cs)), 'params': PyVec([]), 'ret_ty': unit_ty, 'body': b}[f[0]] for f in AFN.variants[0].fields])
+            genv = ex.call('env::GlobalTypeEnv::new_empty', []); genv2 = ex.call('env::GlobalTypeEnv::new_empty', [])
+            monoenv = ex.call('mono::GlobalMonoEnv::from_genv', [genv2]); liftenv = ex.call('lift::GlobalLiftEnv::from_monoenv', [monoenv])
+            h2 = {0: Agg(GOENV.key, 0, [genv, liftenv]), 1: Agg('compiler::env::Gensym', 0, [Cell_(100)])}
+            gfn = ex.call('go::compile::compile_fn', [Ref(h2, 0), Ref(h2, 1), fn])
+            return dict(zip([x[0] for x in GFN.variants[0].fields], gfn.fields))['name']
+        res = e2.explore(r, W, entry, ass)
+        for p in res:
+            r.cases += 1
+            if p.kind != 'ok':
+                if not any(f.key == 'panic' for f in r.findings): r.findings.append(Finding('panic', 'compile_fn panics on a function name: %s' % p.value, {}, False, 'not replayed'))
+                continue
+            out = p.value.chars
+            is_main0 = ms.str_eq(out, main0); is_main0 = z3.BoolVal(bool(is_main0)) if isinstance(is_main0, bool) else ms.zi(is_main0)
+            def ends(suffix):
+                if len(cs) < len(suffix): return z3.BoolVal(False)
+                return z3.And(*[c == ord(ch) for c, ch in zip(cs[len(cs) - len(suffix):], suffix)])
+            entry_name = z3.Or(z3.And(*[c == ord(ch) for c, ch in zip(cs, 'main')]) if n == 4 else z3.BoolVal(False), ends('::main') if n > 6 else (ends('::main') if n == 6 else z3.BoolVal(False)))
+            user_main0 = z3.And(*[c == ord(ch) for c, ch in zip(cs, 'main0')]) if n == 5 else z3.BoolVal(False)
+            m, dt = e2.check(ass + p.pc + [is_main0 != entry_name, z3.Not(user_main0)]); r.queries += 1; r.solver_s += dt
+            r.nontrivial += 1
+            if m is not None:
+                name = e2.concrete_str(m, cs)
+                if any(f.key == 'ordinary-function-named-as-entry' for f in r.findings): continue
+                import os, subprocess, tempfile, shutil
+                ok_, detail = False, ''
+                if all(ch.isalnum() for ch in name) and not name[0].isdigit():
+                    src = 'fn %s() -> int32 { 1 }\nfn main() -> unit { string_println(int32_to_string(%s())) }\n' % (name, name)
+                    d = tempfile.mkdtemp(prefix='vf-c19n-')
+                    try:
+                        open(os.path.join(d, 'main.gom'), 'w').write(src)
+                        o = subprocess.run([build.compiler_bin(), 'run', '--dump-go', os.path.join(d, 'main.gom')], capture_output=True, text=True, timeout=60).stdout
+                    finally: shutil.rmtree(d, ignore_errors=True)
+                    ok_ = o.count('func main0()') >= 2 or ('func %s()' % name) not in o
+                    detail = 'goml `%s`: the emitted Go declares `func main0()` %d times and `func %s()` %d times' % (src.replace('\n', ' | '), o.count('func main0()'), name, o.count('func %s()' % name))
+                else: ok_, detail = True, 'name not spellable in goml source; Go name produced by the real compile_fn MIR'
+                r.findings.append(Finding('ordinary-function-named-as-entry', 'the function `%s` is emitted under the Go name %r' % (name, ''.join(chr(m.eval(ms.zi(c), True).as_long()) if not isinstance(c, int) else chr(c) for c in out)), {'name': name}, ok_, detail))
+        if n == 4: r.samples.append({'length': n, 'paths': len(res)})
+
+_c19_obl8 = obligations
+def obligations():
+    return _c19_obl8() + [Ob('O19.8-function-go-names', 'only the entry point is renamed to main0; every other function keeps its own Go name', ob_fn_names, ('quick', 'thorough'), 5, {})]
